@@ -687,7 +687,8 @@ def run(ctx):
     else:
         nvalid = int(os.environ.get('VERIF_C17_N', ctx.scale(45, 800)))
         cases += [gen_case(rng) for _ in range(nvalid)]
-        cases += [gen_multiband_case(rng) for _ in range(ctx.scale(4, 30))]
+        # the Raman flag makes design estimate SRS tilts (slow): one such case in the quick tier, half of them in thorough
+        cases += [gen_multiband_case(rng, raman=(k == 0) if not ctx.thorough else None) for k in range(ctx.scale(3, 30))]
         for kind, n in (('eol', ctx.scale(3, 40)), ('lumped', ctx.scale(3, 40)), ('att_in', ctx.scale(3, 40)),
                         ('voa_margin', ctx.scale(4, 60)), ('raman', ctx.scale(3, 40)), ('zero_gain', ctx.scale(3, 40))):
             cases += [gen_case(rng, kind) for _ in range(n)]
@@ -881,7 +882,7 @@ def multiband_equipment():
     return _EQ['mb']
 
 
-def gen_multiband_case(rng):
+def gen_multiband_case(rng, raman=None):
     """a small C+L line system: ROADMs in a row, every span between Multiband_amplifier sites with per-band operator
     settings (gain, delta_p, VOAs, zero / negative / absent tilt_target); Raman flag of the SimParams on or off"""
     n = rng.choice([2, 2, 2, 3])
@@ -899,7 +900,7 @@ def gen_multiband_case(rng):
     def band_amp(variety):
         op = {'gain_target': rng.choice([22.55, 21, 18.5, 20]), 'delta_p': rng.choice([0.9, 3.0, 0, 1.5]),
               'out_voa': rng.choice([3.0, 0, 1.0]), 'tilt_target': rng.choice([0.0, -0.5, -1.25, -2.0, None])}
-        if rng.random() < 0.3:
+        if rng.random() < 0.12:
             op['in_voa'] = rng.choice([0, 0.5, 1.0])
         return {'type_variety': variety, 'operational': op}
 
@@ -922,7 +923,7 @@ def gen_multiband_case(rng):
             cx.append((prev, f'roadm {t}'))
     for e in els:
         e['metadata'] = {'location': {'latitude': 0, 'longitude': 0, 'city': None, 'region': ''}}
-    return {'kind': 'multiband', 'equipment': 'multiband', 'raman_flag': rng.random() < 0.5, 'rounds': 1,
+    return {'kind': 'multiband', 'equipment': 'multiband', 'raman_flag': (rng.random() < 0.5) if raman is None else raman, 'rounds': 1,
             'topology': {'elements': els, 'connections': [{'from_node': a, 'to_node': b} for a, b in cx]}}
 
 
